@@ -177,3 +177,19 @@ pub proof fn theorem_account_listing_deterministic<V>(s1: Seq<(Account, V)>, s2:
     det_axioms::axiom_account_names();
     det::lemma_canonical_unique(s1, s2, m, account_le());
 }
+
+/// `ReportContext::all_accounts_unsorted().collect()`: the canonical entries of the account store, each exactly once, in the hash map's order (ASSUMED;
+/// modelled as a listing of a map from the account to nothing so that the lemmas above apply)
+pub uninterp spec fn canonical_accounts_of(ctx: &ReportContextStub) -> Map<Account, ()>;
+#[verifier::external_body]
+pub struct ReportContextStub { _p: usize }
+#[verifier::external_body]
+pub fn collect_all_accounts_unsorted(ctx: &ReportContextStub) -> (r: Vec<Account>)
+    ensures lists_entries(r@.map_values(|a: Account| (a, ())), canonical_accounts_of(ctx)),
+{ unimplemented!() }
+/// `V.sort_unstable_by_key(|x| x.as_str())` over account handles
+#[verifier::external_body]
+pub fn sort_accounts_by_name(v: &mut Vec<Account>)
+    ensures final(v)@.map_values(|a: Account| (a, ())).to_multiset() == old(v)@.map_values(|a: Account| (a, ())).to_multiset(),
+        det::sorted_by_key(final(v)@.map_values(|a: Account| (a, ())), account_le()),
+{ unimplemented!() }
